@@ -47,7 +47,7 @@ def one(sid, tier, only_checks=None):
             res['error'] = 'worktree: ' + out[-300:]
             return res
         demo = os.path.join(d, 'demo.py')
-        rc0, out0 = sh([PY, demo], cwd=wt, timeout=900)
+        rc0, out0 = sh([PY, demo], cwd=wt, env={'PYTHONPATH': wt}, timeout=900)
         res['demo_clean'] = rc0
         rc, out = sh(['git', 'apply', os.path.join(d, 'patch.diff')], cwd=wt)
         if rc:      # the tree has moved on since the change was written (later fix: commits): try a three-way merge
@@ -59,7 +59,7 @@ def one(sid, tier, only_checks=None):
         rc, out = sh([PY, '-m', 'pytest', '-q', '-p', 'no:cacheprovider', '-x'], cwd=wt, timeout=1800)
         res['tests'] = out.strip().splitlines()[-1] if out.strip() else ''
         res['tests_ok'] = rc == 0 and '44 passed' in out
-        rc1, out1 = sh([PY, demo], cwd=wt, timeout=900)
+        rc1, out1 = sh([PY, demo], cwd=wt, env={'PYTHONPATH': wt}, timeout=900)
         res['demo_seeded'] = rc1
         res['checks'] = {}
         for c in checks:
